@@ -54,7 +54,7 @@ def _J(a):
 
 def chunks(tier):
     b = bounds(tier)
-    out = [("G",), ("N",)]
+    out = [("G",), ("N",), ("HH", 0), ("HH", 1)]
     for a in range(1, b["N"] + 1):
         out += [("B", b["N"], a, j, _J(a)) for j in range(_J(a))]
     for a in range(1, b["NS"] + 1):
@@ -308,6 +308,12 @@ def run_chunk(chunk, tier):
                 _check_render(res, st, s, dict(layer="G", s=s))
                 res.symbols[pre] += 1
         res.sample(dict(layer="G", s="gamma-FeOOH(s)", latex=F.render((((("el", "Fe", ""),)), None, None, "gamma-", "(s)", None), "latex")))
+    elif kind == "HH":
+        for i, st in enumerate(F.multi_hydrate_states()):
+            if i % 2 == chunk[1]:
+                s = F.string_of(st)
+                _check_render(res, st, s, dict(layer="B", s=s, st=st))
+        res.sample(dict(layer="HH", s="Na..7H..C", latex="Na\\cdot 7H\\cdot C"))
     elif kind == "N":
         for st in F.numeral_states():
             s = F.string_of(st)
